@@ -40,7 +40,11 @@ import (
 	"github.com/mgtv-tech/redis-GunYu/syncer"
 )
 
-var schedKinds = []string{"none", "moved-between", "moved-mid", "ask", "back-forth", "node-added"}
+var schedKinds = []string{"none", "moved-between", "moved-mid", "ask", "back-forth", "node-added", refreshMidBuild}
+
+// refreshMidBuild: the client's slot-table refresh is made to land between two Put calls of ONE
+// batch that touch the migrated slot (see midBuildPlan).
+const refreshMidBuild = "refresh-mid-build"
 
 type caseCfg struct {
 	Txn, Pipeline bool
@@ -93,6 +97,15 @@ func genCase(i int, r *rand.Rand) caseCfg {
 	c.PlanStyle = r.Intn(4)
 	c.PauseUnit = time.Duration(1+r.Intn(8)) * time.Millisecond
 	c.BufSize = []int{64, 4096, 64 * 1024}[r.Intn(3)]
+	if c.Sched == refreshMidBuild {
+		// only the blocking non-transactional sender follows redirects in place and refreshes
+		// its table behind the back of the batch that is being built
+		c.Txn, c.Pipeline = false, false
+		c.BatchTicker = time.Duration(15+r.Intn(10)) * time.Millisecond
+		c.CpTicker = 40 * time.Millisecond
+		c.NCmds = 40 + r.Intn(80)
+		c.BufSize = 64 * 1024
+	}
 	return c
 }
 
@@ -141,7 +154,19 @@ type wr struct {
 	cmd  int // index into st.Cmds
 }
 
+// midBuild describes the scripted tail of a refresh-mid-build stream.
+type midBuild struct {
+	victim, other *tagT // two tags (slots) of the same node
+	trigger       *wr   // a lone write on the victim key: its MOVED makes the client refresh
+	offTrigger    int64 // stream offsets of the three sections
+	offBatch      int64
+	offTail       int64
+	batchLen      int // queue items of the victim batch (= BatchCmdCount of the case)
+	firstV, lastV string
+}
+
 type workload struct {
+	mid    *midBuild
 	st     *gen.Stream
 	writes []*wr
 	byID   map[string]*wr
@@ -199,6 +224,29 @@ func genWorkload(r *rand.Rand, cc caseCfg, tags []*tagT, hist string) *workload 
 	}
 	b := func(s string) []byte { return []byte(s) }
 	nextID := 0
+	emit := func(name string, args [][]byte, keys []string, id string, g int) *wr {
+		ci := add(gen.KWrite, name, args, id, g)
+		x := &wr{id: id, keys: keys, cmd: ci}
+		w.writes = append(w.writes, x)
+		w.byID[id] = x
+		for _, k := range keys {
+			if w.pos[k] == nil {
+				w.pos[k] = map[string]int{}
+			}
+			w.pos[k][id] = len(w.seq[k])
+			w.seq[k] = append(w.seq[k], id)
+		}
+		return x
+	}
+	// strWrite: a write on a string key of tag t
+	strWrite := func(t *tagT, suffix string) *wr {
+		id := fmt.Sprintf("~%s.%d~", hist, nextID)
+		nextID++
+		t.uses++
+		k := t.key(suffix)
+		name := []string{"set", "append"}[r.Intn(2)]
+		return emit(name, [][]byte{b(k), b(id + "v" + strconv.Itoa(r.Intn(1000)))}, []string{k}, id, -1)
+	}
 	write := func(g int) {
 		id := fmt.Sprintf("~%s.%d~", hist, nextID)
 		nextID++
@@ -260,17 +308,7 @@ func genWorkload(r *rand.Rand, cc caseCfg, tags []*tagT, hist string) *workload 
 			keys = []string{k, t.key("gone" + id)} // the companion key carries the id and never exists
 			args = [][]byte{b(keys[0]), b(keys[1])}
 		}
-		ci := add(gen.KWrite, name, args, id, g)
-		x := &wr{id: id, keys: keys, cmd: ci}
-		w.writes = append(w.writes, x)
-		w.byID[id] = x
-		for _, k := range keys {
-			if w.pos[k] == nil {
-				w.pos[k] = map[string]int{}
-			}
-			w.pos[k][id] = len(w.seq[k])
-			w.seq[k] = append(w.seq[k], id)
-		}
+		emit(name, args, keys, id, g)
 	}
 	add(gen.KSelect, "SELECT", [][]byte{b("0")}, "", -1)
 	groups := 0
@@ -290,6 +328,59 @@ func genWorkload(r *rand.Rand, cc caseCfg, tags []*tagT, hist string) *workload 
 		default:
 			write(-1)
 		}
+	}
+	if cc.Sched == refreshMidBuild {
+		// two tags of one node: the victim slot migrates, the other one stays
+		byNode := map[int][]*tagT{}
+		for _, t := range tags {
+			byNode[t.node] = append(byNode[t.node], t)
+		}
+		var cands []int
+		for nd, ts := range byNode {
+			if len(ts) >= 2 {
+				cands = append(cands, nd)
+			}
+		}
+		sort.Ints(cands)
+		ts := byNode[cands[r.Intn(len(cands))]]
+		vi := r.Intn(len(ts))
+		m := &midBuild{victim: ts[vi], other: ts[(vi+1+r.Intn(len(ts)-1))%len(ts)]}
+		// (1) a lone write on the victim key: flushed by the batch ticker, answered MOVED after
+		//     the migration, retried in place — and the client asks for a fresh slot table
+		m.offTrigger = int64(len(st.Bytes))
+		m.trigger = strWrite(m.victim, "s1")
+		// (2) the victim batch, one flush: command(s) of ANOTHER slot of the old owner first (they
+		//     open the node batch), then the victim key, then a command whose keys the client has
+		//     to ask the cluster for (COMMAND GETKEYS: a request the double sees while the batch
+		//     is being built — the refresh is released there), then the victim key again
+		m.offBatch = int64(len(st.Bytes))
+		n0 := len(st.Cmds)
+		for i, n := 0, 1+r.Intn(3); i < n; i++ {
+			strWrite(m.other, "s1")
+		}
+		for i, n := 0, 1+r.Intn(2); i < n; i++ {
+			x := strWrite(m.victim, "s1")
+			if m.firstV == "" {
+				m.firstV = x.id
+			}
+		}
+		if r.Intn(2) == 0 {
+			strWrite(m.other, "s2")
+		}
+		add(gen.KAdmin, "exists", [][]byte{b(m.other.key("s1"))}, "", -1) // keys not in the client's table
+		for i, n := 0, 1+r.Intn(3); i < n; i++ {
+			m.lastV = strWrite(m.victim, "s1").id
+			if r.Intn(3) == 0 {
+				strWrite(m.other, "s1")
+			}
+		}
+		m.batchLen = len(st.Cmds) - n0
+		m.offTail = int64(len(st.Bytes))
+		// (3) an ordinary tail
+		for i, n := 0, 5+r.Intn(20); i < n; i++ {
+			write(-1)
+		}
+		w.mid = m
 	}
 	return w
 }
@@ -479,18 +570,44 @@ func oneCase(run *harness.Run, key string, idx int, r *rand.Rand, cc caseCfg) {
 	hist := fmt.Sprintf("c%d", idx)
 	var slowNode atomic.Int64 // the congested node: the owner of the hottest victim slot
 	slowNode.Store(-1)
-	if cc.SlowRefresh {
+	// refresh-mid-build: the reply to the client's CLUSTER SLOTS refresh is held back (phase 1 ->
+	// 2) until the double sees the COMMAND GETKEYS request the client issues while it builds the
+	// victim batch (2 -> 3); back-pressure only, the verdict is the per-key order oracle's
+	var phase atomic.Int32
+	held := make(chan struct{})
+	release := make(chan struct{})
+	var relOnce sync.Once
+	releaseRefresh := func() { relOnce.Do(func() { close(release) }) }
+	defer releaseRefresh()
+	if cc.SlowRefresh || cc.Sched == refreshMidBuild {
 		// back-pressure only (never a verdict): topology replies take 0–2 ms, so the client's
 		// asynchronous slot-table refresh lands at varying points of the following batches
-		// ...and one node answers every request 150 µs late, so that a pipelined sender really has
-		// several batches in flight on that node's connection
+		// ...and one node answers every request late, so that a pipelined sender really has
+		// several batches in flight on that node's connection / the old owner's node batch is
+		// slower than the new owner's
 		var n atomic.Int64
 		for i := 0; i < cc.Nodes; i++ {
 			i := int64(i)
 			cl.Node(int(i)).ReplyDelay = func(cmd string) {
-				if cmd == "CLUSTER" {
+				switch {
+				case cmd == "CLUSTER" && cc.Sched == refreshMidBuild:
+					if phase.CompareAndSwap(1, 2) {
+						close(held)
+						select {
+						case <-release:
+						case <-time.After(5 * time.Second):
+						}
+					}
+				case cmd == "COMMAND" && cc.Sched == refreshMidBuild:
+					if phase.CompareAndSwap(2, 3) {
+						releaseRefresh()
+						time.Sleep(4 * time.Millisecond) // let the refresh goroutine install the new table
+					}
+				case cmd == "CLUSTER":
 					time.Sleep(time.Duration(n.Add(1)*7919%21) * 100 * time.Microsecond)
-				} else if i == slowNode.Load() && cc.Pipeline {
+				case i == slowNode.Load() && cc.Sched == refreshMidBuild:
+					time.Sleep(time.Millisecond)
+				case i == slowNode.Load() && cc.Pipeline:
 					time.Sleep(150 * time.Microsecond)
 				}
 			}
@@ -546,6 +663,9 @@ func oneCase(run *harness.Run, key string, idx int, r *rand.Rand, cc caseCfg) {
 	cfg.CanTransaction = cc.Txn
 	cfg.ReplayPipeline = cc.Pipeline
 	cfg.BatchCmdCount = cc.BatchCount
+	if w.mid != nil {
+		cfg.BatchCmdCount = uint(w.mid.batchLen) // the victim batch is flushed when it is complete
+	}
 	cfg.BatchBufferSize = cc.BatchBytes
 	cfg.BatchTicker = cc.BatchTicker
 	cfg.KeepaliveTicker = cc.KeepAlive
@@ -585,6 +705,10 @@ func oneCase(run *harness.Run, key string, idx int, r *rand.Rand, cc caseCfg) {
 	if len(victims) > 0 {
 		slowNode.Store(int64(cl.Owner(victims[0].slot)))
 	}
+	if w.mid != nil {
+		victims = []victim{{w.mid.victim.slot, w.mid.victim.name}}
+		slowNode.Store(int64(w.mid.victim.node)) // the old owner answers late
+	}
 
 	// monitors on the double: keep-alive pings, the stored resume offset reaching the end of the
 	// stream, and (schedule moved-between) the applications of the first part of the stream
@@ -604,6 +728,27 @@ func oneCase(run *harness.Run, key string, idx int, r *rand.Rand, cc caseCfg) {
 	cpAtEnd := make(chan struct{})
 	var cpOnce sync.Once
 	var part1Hook func(id string)
+	// waitApplied returns a channel closed once every id of the set has been applied (to be
+	// called before the replay starts)
+	var hooks []func(id string)
+	waitApplied := func(ids map[string]bool) chan struct{} {
+		done := make(chan struct{})
+		var mu sync.Mutex
+		if len(ids) == 0 {
+			close(done)
+		}
+		hooks = append(hooks, func(id string) {
+			mu.Lock()
+			if ids[id] {
+				delete(ids, id)
+				if len(ids) == 0 {
+					close(done)
+				}
+			}
+			mu.Unlock()
+		})
+		return done
+	}
 	onApplied := func(a *fakeredis.CApp) {
 		if a.Cmd == "HSET" && len(a.Args) >= 3 && string(a.Args[0]) == cpName {
 			for i := 1; i+1 < len(a.Args); i += 2 {
@@ -615,8 +760,12 @@ func oneCase(run *harness.Run, key string, idx int, r *rand.Rand, cc caseCfg) {
 			}
 			return
 		}
+		id := gen.FindID(a.Args)
 		if part1Hook != nil {
-			part1Hook(gen.FindID(a.Args))
+			part1Hook(id)
+		}
+		for _, h := range hooks {
+			h(id)
 		}
 	}
 
@@ -668,6 +817,35 @@ func oneCase(run *harness.Run, key string, idx int, r *rand.Rand, cc caseCfg) {
 		plan = append(drive.Plan(r, st.Bytes[:cutOff], cc.PauseUnit, cc.PlanStyle),
 			drive.Step{Gate: gate})
 		plan = append(plan, drive.Plan(r, st.Bytes[cutOff:], cc.PauseUnit, cc.PlanStyle)...)
+	} else if m := w.mid; m != nil {
+		// part 1 | gate 1: victim slot migrates | trigger write | gate 2: the client's refresh is
+		// on its way and held back | victim batch in one piece | tail
+		before := map[string]bool{}
+		for _, x := range w.writes {
+			if st.Cmds[x.cmd].Start < m.offTrigger {
+				before[x.id] = true
+			}
+		}
+		part1 := waitApplied(before)
+		trig := waitApplied(map[string]bool{m.trigger.id: true})
+		gate1, gate2 := make(chan struct{}), make(chan struct{})
+		to := (m.victim.node + 1 + r.Intn(cc.Nodes-1)) % cc.Nodes
+		go func() {
+			<-part1
+			cl.Update(func(t *fakeredis.Topo) { t.MigrateSlot(m.victim.slot, to) })
+			phase.Store(1)
+			close(gate1)
+			<-trig
+			select {
+			case <-held:
+			case <-time.After(3 * time.Second): // no refresh was requested: the case stays trivial
+			}
+			close(gate2)
+		}()
+		plan = append(drive.Plan(r, st.Bytes[:m.offTrigger], cc.PauseUnit, cc.PlanStyle), drive.Step{Gate: gate1})
+		plan = append(plan, drive.Step{Data: st.Bytes[m.offTrigger:m.offBatch]}, drive.Step{Gate: gate2},
+			drive.Step{Data: st.Bytes[m.offBatch:m.offTail]})
+		plan = append(plan, drive.Plan(r, st.Bytes[m.offTail:], cc.PauseUnit, cc.PlanStyle)...)
 	} else {
 		installSchedule(r, cc, cl, victims, reqBase, len(w.writes))
 	}
@@ -908,6 +1086,11 @@ func oneCase(run *harness.Run, key string, idx int, r *rand.Rand, cc caseCfg) {
 		return wt
 	}
 
+	// every violation is counted by signature (the harness keeps only the first witnesses)
+	viol := func(sig, caseKey, what string, wt any) {
+		run.Count("violations["+sig+"]", 1)
+		run.Violation(sig, caseKey, what, wt)
+	}
 	// clause 1: per-key order
 	keysChecked := 0
 	for _, k := range allKeys {
@@ -933,7 +1116,7 @@ func oneCase(run *harness.Run, key string, idx int, r *rand.Rand, cc caseCfg) {
 				if oq := reqByGReq[s.greq]; jq != nil && oq != nil && jq.Node == oq.Node && jq.Conn == oq.Conn {
 					via = "same-pipeline"
 				}
-				run.Violation(fmt.Sprintf("order|%s|%s|jumped-over=%s|successor=%s", cls, modeSig(cc), jumped, via), key,
+				viol(fmt.Sprintf("order|%s|%s|jumped-over=%s|successor=%s", cls, modeSig(cc), jumped, via), key,
 					fmt.Sprintf("key %q: command #%d took effect right after #%d (of %d) — %s; #%d had been answered %q by then, the overtaking command ran %s [schedule %s]",
 						k, s.p, prev, len(exp), cls, prev+1, jumped, via, cc.Sched),
 					witness(k, prev+1))
@@ -961,7 +1144,7 @@ func oneCase(run *harness.Run, key string, idx int, r *rand.Rand, cc caseCfg) {
 			for j := range exp {
 				if !applied[j] && !lossReported {
 					lossReported = true
-					run.Violation(fmt.Sprintf("silent-loss|%s|lost-got=%s", modeSig(cc), replyClass(exp[j], never)), key,
+					viol(fmt.Sprintf("silent-loss|%s|lost-got=%s", modeSig(cc), replyClass(exp[j], never)), key,
 						fmt.Sprintf("key %q: Send reported nothing and the tool went idle after storing the stream's end offset, but command #%d of %d (%s) was never applied [schedule %s]",
 							k, j, len(exp), exp[j], cc.Sched),
 						witness(k, j))
@@ -975,7 +1158,7 @@ func oneCase(run *harness.Run, key string, idx int, r *rand.Rand, cc caseCfg) {
 		next := st.Cmds[w.byID[exp[last+1]].cmd]
 		if cp > base+next.Start {
 			lossReported = true
-			run.Violation(fmt.Sprintf("resume-past-unapplied|%s|err=%s|unapplied-got=%s", modeSig(cc), errClass(oc.err), replyClass(exp[last+1], never)), key,
+			viol(fmt.Sprintf("resume-past-unapplied|%s|err=%s|unapplied-got=%s", modeSig(cc), errClass(oc.err), replyClass(exp[last+1], never)), key,
 				fmt.Sprintf("key %q: Send reported %q; the stored resume offset %d lies beyond the start %d of %s (#%d, the command after the last applied #%d): a restart skips it [schedule %s]",
 					k, errClass(oc.err), cp, base+next.Start, exp[last+1], last+1, last, cc.Sched),
 				witness(k, last+1))
@@ -989,7 +1172,7 @@ func oneCase(run *harness.Run, key string, idx int, r *rand.Rand, cc caseCfg) {
 			dups++
 			if cc.Txn && !dupReported {
 				dupReported = true
-				run.Violation("txn-duplicate|"+modeSig(cc), key, fmt.Sprintf("transactional mode: %s applied %d times within one run [schedule %s]", x.id, n, cc.Sched),
+				viol("txn-duplicate|"+modeSig(cc), key, fmt.Sprintf("transactional mode: %s applied %d times within one run [schedule %s]", x.id, n, cc.Sched),
 					witness(x.keys[0], w.pos[x.keys[0]][x.id]))
 			}
 		}
@@ -1020,6 +1203,14 @@ func oneCase(run *harness.Run, key string, idx int, r *rand.Rand, cc caseCfg) {
 	run.Seen("outcomes", oSig)
 	if !fired {
 		run.Count("runs_schedule_not_reached", 1)
+	}
+	if w.mid != nil {
+		run.Count("refresh_mid_build_runs", 1)
+		if phase.Load() == 3 {
+			// the held slot-table refresh was released by the COMMAND GETKEYS request issued
+			// between two Put calls on the victim key
+			run.Count("refresh_mid_build_refresh_released_between_puts", 1)
+		}
 	}
 	if (cc.Sched == "none" && len(nodesUsed) >= 2) || (cc.Sched != "none" && fired) || (cc.Txn && cc.Sched == "none" && nBiz > 0) {
 		run.Distinct(fmt.Sprintf("%s|%s|%s|%s", modeSig(cc), cc.Sched, oSig, redirSig))
